@@ -344,7 +344,39 @@ def check_cancel_hook_submission(repo, rep):
                           f"an ACTIVE order registered by the on_cancel hook is {'not ' if not in_st else ''}in storage and {'not ' if not in_act else ''}in active_storage after "
                           f"_execute_cancel (the per-symbol storage is cleared AFTER the hook): it stays ACTIVE but is no longer reported")
         rep.instance(rid, f"path{n}", {"in_storage": in_st, "in_active_storage": in_act})
-    rep.floor(rid, 1)
+    # the same through a rejected entry: Strategy._execute_filters with a filter that answers no, after the strategy has registered
+    # an ACTIVE order (self.broker... in should_long / go_long / the filter itself)
+    def mk2(dec):
+        it = Interp(repo, stubs=W.base_stubs(), decisions=dec, samples=[{"q": Fraction(1), "p": Fraction(10), "now": Fraction(5), "t_created": Fraction(0)}])
+        it.stubs[f"{W.HELPERS}:is_unit_testing"] = lambda i, a, k: False
+        live = W.make_order(repo, "LIVE", buy, limit, R.atom("q"), R.atom("p"), status=st["ACTIVE"])
+        done = W.make_order(repo, "DONE", buy, limit, R.atom("q"), R.atom("p"), status=st["CANCELED"])
+        orders = W.obj_of(repo, ORDERS_STATE, "OrdersState", "store.orders", {"storage": {KEY: [done, live]}, "active_storage": {KEY: [done, live]}, "to_execute": []})
+        it.overrides[f"{W.STORE}:store"] = Obj("StoreClass", name="store", attrs={"orders": orders}, open_world=True)
+        strat = W.obj_of(repo, STRAT, "Strategy", "strategy", {"exchange": "Sandbox", "symbol": "BTC-USDT", "timeframe": "1m",
+                                                               "increased_count": num(0), "reduced_count": num(0)})
+        from vlib.absint import BoundBuiltin
+        flt = BoundBuiltin(lambda i, a, k: False)
+        W.bind(strat, "filters", lambda i, a, k: [flt])
+        it.orders, it.live = orders, live
+        return it, lambda it: it.call(it.getattr(strat, "_execute_filters"), [], {})
+    m = 0
+    for out in explore(mk2, 16):
+        m += 1
+        if out.kind != "return":
+            if "__name__" in str(out.value) or "Unknown" in str(out.value):
+                raise AnalysisError(f"_execute_filters not interpretable: {out.value}")
+            rep.violation(rid, "execute_filters|raises", f"_execute_filters raises {out.value}")
+            continue
+        o = out.interp.orders
+        in_st = out.interp.live in o.attrs["storage"][KEY]
+        in_act = out.interp.live in o.attrs["active_storage"][KEY]
+        if not (in_st and in_act):
+            rep.violation(rid, "execute_filters|live-order-dropped",
+                          f"an ACTIVE order that the strategy registered before a filter rejected the entry is {'not ' if not in_st else ''}in storage and "
+                          f"{'not ' if not in_act else ''}in active_storage after _execute_filters (-> _reset -> reset_trade_orders): it stays ACTIVE with its reservation but is no longer reported, matched or cancelled")
+        rep.instance(rid, f"filters|path{m}", {"in_storage": in_st, "in_active_storage": in_act})
+    rep.floor(rid, 2)
 
 
 def check_match_loop(repo, rep, tier):
